@@ -24,7 +24,8 @@ THEOREMS = ['GV.Coll.' + t for t in (
     'filterByProperty_keyError', 'properties_datetime_start', 'bounds_is_union', 'vertsList_append', 'verts_mem',
     'verts_multi', 'len_eq', 'iter_eq', 'bool_iff', 'contains_iff', 'add_fc', 'add_mixed', 'add_track',
     'getIdx_nonneg', 'getIdx_neg', 'getIdx_out', 'getSlice_full', 'getSlice_step1', 'getSlice_reverse',
-    'getSlice_step0')]
+    'getSlice_step0', 'listEq_eq_by', 'listEqBy_iff', 'listEqBy_refl', 'listEqBy_symm', 'sameOrEq_symm', 'eqFC_refl',
+    'eqFC_symm', 'eqFC_iff', 'eqColl_refl', 'eqColl_symm', 'eqColl_mixed')]
 
 BAD_DT = {'date': date(2020, 1, 1), 'str': '2020-01-01', 'none': None, 'int': 5}
 
@@ -149,10 +150,41 @@ def _do(op, col, shapes, idmap, rest, toks):
     raise ValueError('unknown op ' + op)
 
 
+def impl_eq(line):
+    """fc.eq K | shapes | K2 | shapes2 | ab|ba   ->   `<left == right> <left != right> # members of the first # of the second`
+    A shape id that occurs more than once (in one operand or in both) is the *same object*.  K2: F / T (a collection of
+    that class), L (the plain list of the members), N (not a collection: the first member, or None)."""
+    _op, secs = U.sections(line)
+    K, K2, order = secs[0][0], secs[2][0], secs[4][0]
+    objs = {}
+
+    def obj(t):
+        if t.id not in objs:
+            objs[t.id] = t.build()
+        return objs[t.id]
+    s1 = [obj(U.Tok(t)) for t in secs[1]]
+    s2 = [obj(U.Tok(t)) for t in secs[3]]
+    idmap = {id(o): i for i, o in objs.items()}
+    a = _col(K, list(s1))
+    if K2 in ('F', 'T'):
+        b = _col(K2, list(s2))
+        b_members = lambda: b.geoshapes
+    else:
+        b = list(s2) if K2 == 'L' else (s2[0] if s2 else None)
+        b_members = lambda: s2
+    before = (U.snapshot(a), [(id(x), U.geom_fp(x)) for x in b_members()])
+    left, right = (a, b) if order == 'ab' else (b, a)
+    ans = tf(left == right) + ' ' + tf(left != right)
+    after = (U.snapshot(a), [(id(x), U.geom_fp(x)) for x in b_members()])
+    return f'{ans} # {_ids(idmap, a.geoshapes)} # {_ids(idmap, b_members())}' + (' MUTATED' if before != after else '')
+
+
 def impl(line):
     op, secs = U.sections(line)
     if op == 'vertices':
         return impl_vertices(line)
+    if op == 'eq':
+        return impl_eq(line)
     if op == 'hist':
         return impl_hist(line)
     K = secs[0][0]
@@ -968,6 +1000,78 @@ def hist_line(rng, K, hist):
     return f'fc.hist {K} {A} | ' + ' '.join(toks[:n]) + ' || ' + ' || '.join(steps)
 
 
+def eq_lines(rng, count):
+    """`==` / `!=` between collections (stream `list-eq`).  One pool of distinct objects per scenario (equality classes
+    measured once over the whole pool, so twins in the two operands are comparable); the second operand is derived from
+    the first: the same objects in the same order, permutations, a member replaced by an equal-valued twin / by an
+    unequal shape, prefix, extension, empty, the same object twice, every member a twin, and a member that is not `==`
+    to itself (a ring with a NaN radius: only the list's identity test `x is y` makes `a == a` true).  Each pair against
+    both classes, the plain list and a non-collection, in both argument orders."""
+    lines = []
+    NAN = ('R_0_0_nan_5', None, [])
+
+    def scenario(base, timed):
+        n = len(base)
+        pool = list(base)
+        variants = {}
+
+        def twin(i):
+            g, dt, props = pool[i]
+            pool.append((g, dt, list(props)))
+            return len(pool) - 1
+
+        def other(i):
+            g, dt, props = pool[i]
+            # unequal: another geometry at the same time bounds, or (timed) the same geometry one tick later
+            if dt is not None and not U.near_sentinel(dt[0]) and not U.near_sentinel(dt[1]) and rng.random() < 0.5:
+                pool.append((g, (dt[0] + U.TICK, dt[1] + U.TICK), list(props)))
+            else:
+                pool.append((f'P_{50 + len(pool)}_{7}', dt, list(props)))
+            return len(pool) - 1
+        ids = list(range(n))
+        variants['same'] = list(ids)
+        variants['empty'] = []
+        if n:
+            variants['prefix'] = ids[:-1]
+            variants['ext'] = ids + [twin(rng.randrange(n))]
+            k = rng.randrange(n)
+            variants['twin1'] = ids[:k] + [twin(k)] + ids[k + 1:]
+            variants['alltwins'] = [twin(i) for i in ids]
+            k = rng.randrange(n)
+            variants['other1'] = ids[:k] + [other(k)] + ids[k + 1:]
+            variants['twice'] = [ids[0], ids[0]] + ids[1:]
+        if n >= 2:
+            variants['reversed'] = ids[::-1]
+            variants['rotated'] = ids[1:] + ids[:1]
+            sh = list(ids)
+            rng.shuffle(sh)
+            variants['shuffled'] = sh
+        toks, _ = U.make_tokens(pool)
+        firsts = [('base', ids)] + ([('twice', variants['twice'])] if n else [])
+        for fname, first in firsts:
+            for vname, second in variants.items():
+                for K in ('F', 'T') if timed else ('F',):
+                    for K2 in ('F', 'T', 'L', 'N') if timed else ('F', 'L', 'N'):
+                        for order in ('ab', 'ba'):
+                            lines.append(f'fc.eq {K} | {" ".join(toks[i] for i in first)} | {K2} | '
+                                         f'{" ".join(toks[i] for i in second)} | {order} | {fname}/{vname}')
+
+    # systematic: 0..3 points at distinct / equal instants, and with a member that is not `==` to itself
+    for n in range(0, 4):
+        scenario([(f'P_{i}_{i}', (U.T(i // 2), U.T(i // 2)), []) for i in range(n)], True)
+        scenario([(f'P_{i}_{i}', (U.T(3 - i), U.T(4)), []) for i in range(n)], True)
+    scenario([NAN], False)
+    scenario([('P_1_1', None, []), NAN, ('B_0_2_2_0', None, [])], False)
+    while len(lines) < count:
+        timed = rng.random() < 0.6
+        n = rng.choice([1, 2, 2, 3, 3, 4, 5, 6])
+        base = rand_specs(rng, n, 0.0 if timed else 0.4, False)
+        if not timed and rng.random() < 0.2:
+            base[rng.randrange(n)] = NAN
+        scenario(base, timed)
+    return lines
+
+
 def hull_lines(rng, count):
     """(vertices lines for the model, np-hull lines)"""
     vl, hl = [], []
@@ -1000,7 +1104,9 @@ def hull_lines(rng, count):
 def check(run):
     run.prove(MODULE, THEOREMS)
     run.source_tie(['SrcColl', 'SrcTime'], 'GeoVerif.Props.C18Src',
-                   ['GV.C18Src.' + t for t in ('filterByDtIval_eq', 'filterByDtInst_eq', 'filterByIntersection_eq', 'filterContainedBy_eq', 'filterContains_eq', 'intersects_eq', 'filterProp_loop_eq', 'filterByProperty_eq', 'bool_eq', 'add_eq', 'src_filterByDt_inst', 'src_filterByDt_ival', 'src_filterByIntersection_exact', 'src_filterContains_exact', 'src_filterContainedBy_exact')])
+                   ['GV.C18Src.' + t for t in ('filterByDtIval_eq', 'filterByDtInst_eq', 'filterByIntersection_eq', 'filterContainedBy_eq', 'filterContains_eq', 'intersects_eq', 'filterProp_loop_eq', 'filterByProperty_eq', 'bool_eq', 'add_eq', 'src_filterByDt_inst', 'src_filterByDt_ival', 'src_filterByIntersection_exact', 'src_filterContains_exact', 'src_filterContainedBy_exact',
+                                                  'contains_eq', 'iter_eq', 'len_eq', 'fcGetIdx_eq', 'fcGetSlice_eq', 'fcEq_eq', 'src_contains_iff', 'src_getIdx', 'src_getSlice', 'src_fcEq_refl',
+                                                  'trackEq_eq', 'eqColl_eq', 'src_fcEq_symm')])
     rng = run.rng
 
     def tag(ln, a):
@@ -1042,6 +1148,13 @@ def check(run):
             lines = []
     run.run_cases('random-collections', lines, impl, spec, tag=tag)
 
+    # `==` / `!=` between collections: correspondence only (the property text does not speak about equality, so there is
+    # no oracle: `spec` is None); the model side is `eqColl` = `eqFC` / `eqTrack` by the class of the left operand
+    def eq_tag(ln, a):
+        secs = U.sections(ln)[1]
+        return ['fc.eq:' + a[:1], 'eq-variant:' + secs[5][0], 'eq-classes:' + secs[0][0] + secs[2][0] + ':' + secs[4][0]]
+    run.run_cases('list-eq', eq_lines(rng, run.scale(3200, 20000)), impl, None, tag=eq_tag)
+
     # observe - mutate - observe histories on the list protocol and every query, incl. constructor-argument aliasing
     lines = [ln for ln in (hist_line(rng, 'F' if k % 2 == 0 else 'T', run.hist) for k in range(run.scale(200, 5000))) if ln]
     def same_steps(a, sp):
@@ -1074,7 +1187,10 @@ def check(run):
              'ellipses, rings, multi-shapes; time-less / instants / intervals / long intervals; equal-but-distinct '
              'duplicates) x every collection operation (time, intersection, contains, contained-by and property filters, '
              'bounds, membership, concatenation, indexing, slicing); per-shape predicate tables measured on the '
-             'implementation in both argument orders; exhaustive index/slice world on 0..3 members. A case is one '
+             'implementation in both argument orders; exhaustive index/slice world on 0..3 members; `==` / `!=` between '
+             'collections (stream list-eq, correspondence only: the statement does not speak about equality): same members, '
+             'permutations, twins, unequal members, prefix / extension / empty, the same object twice, a member that is not '
+             '`==` to itself, against both classes, a plain list and a non-collection, both argument orders. A case is one '
              'protocol line (one operation on one collection), distinct by line.',
         assumptions=['per-shape predicates, bounds and vertex lists are taken as measured on the implementation (their '
                      'correctness is C01-C05/C09)',
